@@ -224,9 +224,9 @@ func Verif_C20_Iterated() {
 	c20Direct(3, 4, []int{1, 4, 5, 9}, 2, 40)
 }
 
-// Verif_C20_IteratedT: digest size 20, |out| in {1,20,21,41,61}, |pass| 0..5, count -1..300.
+// Verif_C20_IteratedT: digest size 20, |out| in {1,21,41}, |pass| 0..3, count -1..120.
 func Verif_C20_IteratedT() {
-	c20Direct(3, 20, []int{1, 20, 21, 41, 61}, 5, 300)
+	c20Direct(3, 20, []int{1, 21, 41}, 3, 120)
 }
 
 type c20Unsupported = errors.UnsupportedError
